@@ -166,5 +166,20 @@ fn main() {
     nested("HashMap<u16,Vec<u8>>", &hm, &HashMap::new());
     let hs: HashSet<i32> = [i32::MIN, -1, 0, 1 << 20].into_iter().collect();
     nested("HashSet<i32>", &hs, &HashSet::new());
+    // derive fixtures (skipped fields hold their Default so that equality is meaningful)
+    {
+        use derive_fix::*;
+        nested("derive Named", &Named { a: 1 << 28, b: -(1 << 40), c: true }, &Named { a: 0, b: 0, c: false });
+        nested("derive Tuple", &Tuple(255, u64::MAX, -300), &Tuple(0, 128, 64));
+        nested("derive Unit", &Unit, &Unit);
+        nested("derive Generic<Vec<u16>>", &Generic { x: vec![1u16, 300, 70000u32 as u16], y: 16384 }, &Generic { x: vec![], y: 0 });
+        nested("derive SkipNamed", &SkipNamed { a: 0, b: 129, c: 0, d: 1 << 35 }, &SkipNamed { a: 0, b: 1, c: 0, d: 2 });
+        nested("derive SkipTuple", &SkipTuple(0, 111, 222, 0, -3), &SkipTuple(0, 16384, 1 << 21, 0, 127));
+        for s in [Shape::A, Shape::B(1 << 14, -64), Shape::C { x: u64::MAX, y: true }, Shape::D(0, 513), Shape::F { s: 0, t: 200 }] {
+            nested("derive Shape", &s, &Shape::B(7, 7));
+        }
+        nested("derive Either<u32,String>", &Either::<u32, String>::L(1 << 21), &Either::<u32, String>::R("x".into()));
+        nested("derive Either<u32,String>", &Either::<u32, String>::N, &Either::<u32, String>::L(0));
+    }
     report_none(unsafe { COUNT });
 }
